@@ -37,6 +37,8 @@ type poolObs struct {
 	DataNil bool // Data() == nil: compared with the fresh twin only (the model speaks about keys)
 	Data    []string
 	Params  string
+	Router  string
+	Query   string
 	Errors  int
 	Aborted bool
 	Status  int
@@ -55,13 +57,14 @@ func init() {
 }
 
 type poolRouter struct {
-	r    *rux.Router
-	cur  *poolReq
-	obs  *poolObs
-	w    http.ResponseWriter
-	req  *http.Request
-	ctxs map[*rux.Context]bool
-	last *rux.Context
+	r     *rux.Router
+	cur   *poolReq
+	obs   *poolObs
+	w     http.ResponseWriter
+	req   *http.Request
+	other *rux.Router
+	ctxs  map[*rux.Context]bool
+	last  *rux.Context
 }
 
 func newPoolRouter(hook bool) *poolRouter {
@@ -105,6 +108,14 @@ func newPoolRouter(hook bool) *poolRouter {
 		if c.Req != pr.req {
 			o.Req = "replaced"
 		}
+		o.Router = "own"
+		if c.Router() != pr.r && !(pr.cur.Kind == "foreign" && c.Router() == nil) { // (a context the caller built has no router: outside C10)
+			o.Router = "foreign"
+		}
+		o.Query = "own"
+		if qv := c.QueryValues(); c.Query("token") != "t" || len(qv["limit"]) != 0 || len(qv) != 1 {
+			o.Query = fmt.Sprintf("dirty%v", qv)
+		}
 		pr.obs = o
 		pr.last = c
 	})
@@ -133,9 +144,17 @@ func newPoolRouter(hook bool) *poolRouter {
 				}
 			case "req":
 				c.Req = c.Req.Clone(c.Req.Context())
+			case "query":
+				qv := c.QueryValues() // the handler's own copy to edit (eg to build the link to the next page)
+				qv.Set("limit", "10")
+				qv.Del("token")
+			case "delegate":
+				pr.other.HandleContext(c) // another router dispatches the request on this context
 			}
 		}
 	})
+	pr.other = rux.New()
+	pr.other.Any("/{all}", func(c *rux.Context) { c.Set("other", 1) })
 	boom := func(c *rux.Context) { panic("boom") }
 	r.GET("/s", func(c *rux.Context) { c.WriteString("s") })
 	r.GET("/d/{id}", func(c *rux.Context) { c.WriteString("d" + c.Param("id")) })
@@ -158,7 +177,7 @@ func (pr *poolRouter) serve(q *poolReq) (obs *poolObs, code int, body string) {
 			rw = &hijackableRecorder{w}
 		}
 	}
-	req := &http.Request{Method: "GET", URL: &url.URL{Path: path}, Header: http.Header{}, Proto: "HTTP/1.1"}
+	req := &http.Request{Method: "GET", URL: &url.URL{Path: path, RawQuery: "token=t"}, Header: http.Header{}, Proto: "HTTP/1.1"}
 	pr.cur, pr.obs, pr.w, pr.req = q, nil, rw, req
 	func() {
 		defer func() { _ = recover() }()
@@ -214,7 +233,8 @@ func poolReplay(s *Summary, raw json.RawMessage) {
 	}
 	// against the model
 	want := poolObs{Params: c.Expect["params"].(string), Errors: int(c.Expect["errors"].(float64)), Aborted: c.Expect["aborted"].(bool),
-		Status: int(c.Expect["status"].(float64)), Length: int(c.Expect["length"].(float64)), Resp: c.Expect["resp"].(string), Req: c.Expect["req"].(string)}
+		Status: int(c.Expect["status"].(float64)), Length: int(c.Expect["length"].(float64)), Resp: c.Expect["resp"].(string), Req: c.Expect["req"].(string),
+		Router: c.Expect["router"].(string), Query: c.Expect["query"].(string)}
 	for _, k := range c.Expect["data"].([]any) {
 		want.Data = append(want.Data, k.(string))
 	}
